@@ -1,5 +1,6 @@
 import WebpVerif.Model.ReadImage
 import WebpVerif.Props.C05
+import WebpVerif.Lemmas.LLoopInit
 
 /-!
 # C11 — output buffers: size checked, every byte written, all wrappings agree
@@ -135,5 +136,17 @@ theorem missing_alph_is_opaque (l : List Nat) (i : Nat) (h : 4 * i + 3 < l.lengt
 -- non-vacuity
 example : readImage (.extended false) ⟨1, 1, .lossless [9, 8, 7, 6] true⟩ [0, 0, 0] = .ok [9, 8, 7] := by decide
 example : readImage (.extended true) ⟨1, 1, .lossless [9, 8, 7, 6] true⟩ [0, 0, 0] = .error .imageTooLarge := by decide
+
+/-- **The in-place lossless pixel loop does not depend on the previous buffer contents**: for
+    every image size, group layout, colour-cache size and operation list consistent with the
+    single-symbol groups, two buffers with different old contents come out identical (same pixels
+    or the same rejection) - including the chunked copies that read and scribble beyond the pixels
+    decoded so far.  Corollary of `C01.loop_refines_spec`. -/
+theorem lossless_loop_init_independent (c : LLoop.Cfg) (h32 : c.cacheBits ≤ 32) (hw : 0 < c.width)
+    (init1 init2 : Array Nat) (ops : List LLoop.Op)
+    (h1 : init1.size = c.width * c.height) (h2 : init2.size = c.width * c.height)
+    (hcons : LLoop.cons c (c.width * c.height + 1) 0 0 ops = true) :
+    LLoop.decode c init1 ops = LLoop.decode c init2 ops :=
+  LLoop.decode_init_independent c h32 hw init1 init2 ops h1 h2 hcons
 
 end C11
